@@ -170,7 +170,7 @@ RULES = [
 def props_of(key):
     rel, _, rest = key.partition('::')
     ps = set()
-    if re.search(r'impl (core :: )?fmt :: (Debug|Display) for ', rest):
+    if re.search(r'impl .*fmt :: (Debug|Display) for ', rest):
         return ps            # formatting for humans: no property is about it
     for fre, cre, pr in RULES:
         if re.fullmatch(fre, rel) and re.fullmatch(cre, rest):
